@@ -31,6 +31,12 @@ CHECKS = {
  "C01": dict(level="proof", enum=True, ref="7/C01", technique="contract-based deductive verification of the die self-check (accepted <=> tiling, ASSERT-ALL) and of the constructor against that contract; input validation at tree level; bounded enumeration (real YAML text, real constructor) for 'valid => accepted and tiled'",
    text="Proved for all values: Die._check_rectangles returns normally iff the reported rectangles lie in the die (within its epsilon), overlap pairwise by at most the area tolerance and sum to the die area; the constructor runs that check once, last, on exactly the lists it reports, and reports blockages/specialised regions unchanged in order with their tags and the netlist's fixed rectangles; malformed descriptions are rejected. That a VALID description is never rejected and that the greedy ground cover is a tiling is covered by a BOUNDED leg: every layout of <= 2 (sampled 3) lattice regions on a 5x5 lattice at 5 scalings incl. 0.001 and 1/3.",
    note=BASE + "; completeness of the Hanan-grid + greedy largest-rectangle cover is only bounded (lattice layouts); ruamel.yaml trusted in the bounded leg; the self-check contract is proved for <= 3 rectangles and lifted by the assert-only loop shape"),
+ "C05": dict(level="proof", ref="7/C05", technique="contract-based deductive verification at YAML-tree level: the real Netlist(tree) loader executed on document templates with symbolic numbers; derived quantities against definitions on the source document; one obligation family per defect class (defect => every path raises)",
+   text="For module templates (soft with scalar / per-region area, centre, aspect ratio, 0-2 rectangles in regions; hard / flippable / fixed with 1-3 rectangles; terminals) and nets of 2-4 pins with symbolic numbers: area, per-region areas, centre (area-weighted centroid), rectangle lists, fixed rectangles and wire length (weight x sum of distances to the mean, sqrt by its defining axiom) equal their definitions; for each of 34 defect classes a well-formed document with that defect injected (offending number symbolic over its whole defective range) is rejected on every path, and the same document without defect is accepted.",
+   note=BASE + "; documents are templates (bounded number of modules / rectangles / pins), names from a finite set; find_location replaced by its C06 contract, overlap/create_stog by their contracts in the 3-rectangle template; ruamel.yaml not involved (tree level)"),
+ "C04": dict(level="proof", enum=True, ref="7/C04", technique="contract-based deductive verification at YAML-tree level: parse(dump(parse(t))) compared field by field with parse(t), dump repeatable, for document templates with symbolic numbers; bounded leg through the real YAML text",
+   text="For every module/net template of C05 with symbolic numbers: the written tree is accepted by the reader, the reloaded design equals the original field by field (kind flags incl. flip, per-region areas, centre, aspect-ratio bounds, rectangles with regions in order, net members and weights - including weight exactly 1), writing the reloaded design and writing twice give the identical tree. The text layer is assumed (ruamel: tree -> text -> same tree) and exercised on random concrete documents in a bounded leg.",
+   note=BASE + "; templates bounded (<= 2 rectangles per module, <= 5 modules); ruamel.yaml assumed to round-trip trees of dict/list/str/number/bool"),
 }
 
 PENDING = {}
